@@ -139,6 +139,11 @@ func init() {
 		Setup: func(e *Env) error {
 			return e.NewPlugin("ecs_forward", "ecs_handler", &ecs_handler.Args{Forward: true})
 		}})
+	reg(&Inst{Name: "ecs_forward_preset", Plugin: "ecs", FwdECS: true,
+		Rules: []sequence.RuleArgs{rule("$ecs_forward_preset")},
+		Setup: func(e *Env) error {
+			return e.NewPlugin("ecs_forward_preset", "ecs_handler", &ecs_handler.Args{Forward: true, Preset: PresetECS})
+		}})
 	reg(&Inst{Name: "fwdopt10", Plugin: "forward_edns0opt", FwdCode: 10, Rules: []sequence.RuleArgs{rule("forward_edns0opt 10")}})
 	reg(&Inst{Name: "fwdopt65001", Plugin: "forward_edns0opt", FwdCode: 65001, Rules: []sequence.RuleArgs{rule("forward_edns0opt 65001")}})
 	// tagged cache created through the plugin's Init (metrics + API registered)
@@ -170,7 +175,7 @@ func C03Alphabet() []string {
 
 // C15Alphabet is the list of the 6 instances of the C15 plan.
 func C15Alphabet() []string {
-	return []string{"cache_tagged", "ttl5", "ecs_forward", "ecs_preset", "fwdopt10", "fwdopt65001"}
+	return []string{"cache_tagged", "ttl5", "ecs_forward", "ecs_preset", "ecs_forward_preset", "fwdopt10", "fwdopt65001"}
 }
 
 // Probe is the observation point: first rule of every sequence, it runs the
